@@ -844,6 +844,41 @@ fn radix_error_mapped(t: &str) -> bool {
 /// the "Invalid Token" exit exists, is taken under `start_is_zero && !value.is_zero()` with `start_is_zero` the test
 /// that the literal's first character is `0`, and lies on the branch that produces `Tok::Int` -- not on a path that
 /// produces a float or an imaginary literal.
+/// `start_is_zero && P` where P, evaluated on digit strings, is true exactly for the non-zero values (P may look at
+/// the parsed `value` or at the digits of `value_text`).
+fn nonzero_after_leading_zero(cond: &str) -> bool {
+    if cond == "start_is_zero&&!value.is_zero()" {
+        return true;
+    }
+    let Some(p) = cond.strip_prefix("start_is_zero&&") else { return false };
+    let Ok(e) = syn::parse_str::<syn::Expr>(p) else { return false };
+    use crate::eval::{Machine, V};
+    let methods = |recv: &V, name: &str, args: &[V]| -> Option<V> {
+        match (recv, name) {
+            (V::Int(i), "is_zero") => Some(V::Bool(*i == 0)),
+            (V::Str(x), "bytes") | (V::Str(x), "as_bytes") => Some(V::List(x.bytes().map(|b| V::Int(b as i128)).collect())),
+            (V::Str(x), "chars") => Some(V::List(x.chars().map(|c| V::Char(c as u32)).collect())),
+            (V::Str(x), "trim_start_matches") => match args.first() {
+                Some(V::Char(c)) => char::from_u32(*c).map(|c| V::Str(x.trim_start_matches(c).to_string())),
+                _ => None,
+            },
+            (V::Str(x), "as_str") => Some(V::Str(x.clone())),
+            _ => None,
+        }
+    };
+    for x in ["0", "00", "000", "7", "07", "0070", "10", "100", "0000000000000000000001"] {
+        let mut m = Machine::new(&methods);
+        m.set("value_text", V::Str(x.to_string()));
+        m.set("value", V::Int(x.parse::<i128>().unwrap()));
+        let want = x.bytes().any(|b| b != b'0');
+        match m.eval(&e) {
+            Ok(V::Bool(b)) if b == want => {}
+            _ => return false,
+        }
+    }
+    true
+}
+
 pub fn leading_zero_rule(cx: &mut Ctx, rule: &str) {
     let Ok(lx) = sm::load(&cx.repo, "parser/src/lexer.rs") else { return cx.anchor_missing(rule, "parser/src/lexer.rs") };
     let Some(f) = lr::lexer_method(&lx, "lex_normal_number") else { return cx.anchor_missing(rule, "lex_normal_number") };
@@ -855,11 +890,11 @@ pub fn leading_zero_rule(cx: &mut Ctx, rule: &str) {
     let others_clean = ex.iter().filter(|e| e.result.contains("Tok::Complex") || e.result.contains("Tok::Float")).all(|e| !e.conds.iter().any(|c| c.contains("start_is_zero")));
     let placed = bad.len() == 1
         && ints.len() == 1
-        && bad[0].conds.last().map_or(false, |c| c == "start_is_zero&&!value.is_zero()")
+        && bad[0].conds.last().map_or(false, |c| nonzero_after_leading_zero(c))
         && {
             // the integer exit may or may not carry the negated test (guard clause vs if/else)
             let mut ic: Vec<String> = ints[0].conds.clone();
-            if ic.last().map_or(false, |c| c == "!start_is_zero&&!value.is_zero()" || c == "!(start_is_zero&&!value.is_zero())") {
+            if ic.last().map_or(false, |c| c == "!start_is_zero&&!value.is_zero()" || c == "!(start_is_zero&&!value.is_zero())" || bad[0].conds.last().map_or(false, |b| *c == format!("!({})", b) || *c == format!("!{}", b))) {
                 ic.pop();
             }
             bad[0].conds[..bad[0].conds.len() - 1] == ic[..]
